@@ -376,13 +376,19 @@ func checkVisibilityRules(p *core.Program, r *core.Report, rule string) {
 			return "", false
 		}})
 		ok := false
+		inlineOutcome := ""
 		for _, pa := range paths {
 			if len(pa.Lits) == 1 && strings.HasPrefix(pa.Lits[0].Atom, `len(regexp.Regexp.FindStringSubmatch(`+rxDisplay+`,dom.GetAttribute($0,"style"))) <= 1`) && !pa.Lits[0].Val &&
-				pa.Outcome == `return regexp.Regexp.FindStringSubmatch(`+rxDisplay+`,dom.GetAttribute($0,"style"))[1]` {
+				strings.HasSuffix(pa.Outcome, `regexp.Regexp.FindStringSubmatch(`+rxDisplay+`,dom.GetAttribute($0,"style"))[1]`) || strings.HasSuffix(pa.Outcome, `regexp.Regexp.FindStringSubmatch(`+rxDisplay+`,dom.GetAttribute($0,"style"))[1])`) {
 				ok = true
+				inlineOutcome = pa.Outcome
 			}
 		}
 		r.Add(rule, "an inline display value overrides the tag default", p.Pos(gd.Pos()), ok, "first decision of GetDisplayStyle: rxDisplay on the style attribute")
+		// CSS keywords are case-insensitive: the value is compared with "none"/"inline"/... in lower case
+		r.Add(rule, "the inline display value is normalised to lower case", p.Pos(gd.Pos()),
+			inlineOutcome == `return strings.ToLower(regexp.Regexp.FindStringSubmatch(`+rxDisplay+`,dom.GetAttribute($0,"style"))[1])`,
+			"display: NONE hides an element like display: none; returned: "+inlineOutcome)
 		for _, t := range []string{"script", "style"} {
 			n, okT := 0, true
 			for _, pa := range consistentWith(paths, "dom.TagName($0)", t) {
